@@ -225,10 +225,22 @@ def keyArm (st : VState) (s : Seq) : Res := .ok (st, [.postB (.key s st.pastePen
 
 def post (st : VState) (i : Internal) : Res := .ok (st, [.postB (.internal i)])
 
-def decrpmArm (st : VState) (params : List (List Int)) (i : Internal) : Res :=
+/-- Decimal literal → number (structural, so that the kernel can evaluate it). -/
+def digitsToNat : List Char → Nat → Option Nat
+  | [], acc => some acc
+  | c :: cs, acc => if '0' ≤ c ∧ c ≤ '9' then digitsToNat cs (acc * 10 + (c.toNat - 48)) else none
+
+/-- The case labels of the k-th `switch seq.Parameters[1][0]` of `handleSequence` (the DECRPM
+values that count as "the terminal knows the mode" for 2026, 2027, 2031), read from the source. -/
+def decrpmVals (k : Nat) : List Int :=
+  match (Gen.Caps.hs_switches.filter (·.1 == "seq.Parameters[1][0]"))[k]? with
+  | some (_, labels) => labels.filterMap fun l => (digitsToNat l.toList 0).map Int.ofNat
+  | none => []
+
+def decrpmArm (st : VState) (params : List (List Int)) (i : Internal) (vals : List Int) : Res :=
   if params.length < 2 then .ok (st, []) else do
     let v ← idx2 params 1 0
-    if v == 1 || v == 2 then post st i else .ok (st, [])
+    if vals.contains v then post st i else .ok (st, [])
 
 def handleCSI (st : VState) (interm : List Nat) (params : List (List Int)) (final : Nat) : Res :=
   let self := Seq.csi interm params final
@@ -269,9 +281,9 @@ def handleCSI (st : VState) (interm : List Nat) (params : List (List Int)) (fina
   else if final == ch 'y' then
     if params.length < 1 then .ok (st, []) else do
       let p0 ← idx2 params 0 0
-      if p0 == 2026 then decrpmArm st params .synchronizedUpdates
-      else if p0 == 2027 then decrpmArm st params .unicodeCoreCap
-      else if p0 == 2031 then decrpmArm st params .notifyColorChange
+      if p0 == 2026 then decrpmArm st params .synchronizedUpdates (decrpmVals 0)
+      else if p0 == 2027 then decrpmArm st params .unicodeCoreCap (decrpmVals 1)
+      else if p0 == 2031 then decrpmArm st params .notifyColorChange (decrpmVals 2)
       else pure (st, [])
   else if final == ch 'u' then
     if isPrivate interm then post st .kittyKeyboard else keyArm st self
@@ -409,6 +421,14 @@ def Internal.all : List Internal :=
   [.primaryDeviceAttribute, .capabilitySixel, .capabilityOsc4, .capabilityOsc10, .capabilityOsc11, .synchronizedUpdates,
    .unicodeCoreCap, .notifyColorChange, .kittyKeyboard, .styledUnderlines, .truecolor, .kittyGraphics, .textAreaPix,
    .textAreaChar, .inBandResizeEvents]
+
+/-- Position (in declaration order) of the capability an internal event stands for. -/
+def fieldIndex : Internal → Option Nat
+  | .primaryDeviceAttribute => none
+  | .synchronizedUpdates => some 0 | .unicodeCoreCap => some 1 | .truecolor => some 3 | .kittyGraphics => some 4
+  | .kittyKeyboard => some 5 | .styledUnderlines => some 6 | .capabilitySixel => some 7 | .notifyColorChange => some 8
+  | .textAreaChar => some 9 | .textAreaPix => some 10 | .capabilityOsc4 => some 11 | .capabilityOsc10 => some 12
+  | .capabilityOsc11 => some 13 | .inBandResizeEvents => some 15
 
 /-- Fields that differ between two capability records (by name). -/
 def Caps.diff (a b : Caps) : List String :=
